@@ -9,6 +9,7 @@ from typing import Any
 from ..contexts import Ctx
 from ..objectmodel import nodedataclass
 from ..util import regexpp, trim
+from ..util.regextools import regexlit
 from .base import Leaf
 from .math import ffset
 
@@ -42,12 +43,7 @@ class Pattern(Leaf):
         # multiline patterns are OK
         if '\n' in pat:
             pat = trim(pat)
-        if '/' in pat:
-            newpat = pat.replace('"', r'\"')
-            regex = f'?"{newpat}"'
-        else:
-            regex = f'/{pat}/'
-        return regex
+        return regexlit(pat)
 
     @cached_property
     def _nullable(self) -> bool:
